@@ -27,6 +27,8 @@ CODE_NANEQ = True
 
 # keep the judge JVMs small: the machine is shared (core.judge asks for -Xmx6g per JVM)
 JVM_ENV = {"_JAVA_OPTIONS": "-Xmx1500m -XX:ParallelGCThreads=2"}
+# tiny state spaces: JVM start-up dominates - C1 compiler only, two GC threads
+MC_SMALL_ENV = {"_JAVA_OPTIONS": "-Xmx1g -XX:ParallelGCThreads=2 -XX:TieredStopAtLevel=1 -XX:CICompilerCount=1"}
 MC_ENV = {"_JAVA_OPTIONS": "-Xmx3g -XX:ParallelGCThreads=4"}
 
 INV_ALL = ["TypeOK", "ResultIsBox", "ResultIsMinimalWindow", "SliceWellFormed", "TopPrefixEmpty",
@@ -43,7 +45,8 @@ def mc(ctx, name, H, W, vals, ls, mode, naneq=CODE_NANEQ, mut="none", expect="ok
     return ctx.model_check("TrimCrop", dict(
         spec="Spec", invariants=inv, properties=["Terminates"] if live else [],
         constants=dict(H=H, W=W, VALS=set(vals), LISTS=lists(*ls), MODE=mode, CODE_NANEQ=naneq, MUT=mut)),
-        name, expect=expect, workers=4 if H * W <= 12 else 16, env=MC_ENV)
+        name, expect=expect, workers=(2 if H * W <= 6 else 4) if H * W <= 12 else 16,
+        env=MC_SMALL_ENV if H * W <= 9 else MC_ENV)
 
 
 # ---------------------------------------------------------------------------------------------- families
@@ -363,8 +366,8 @@ def replay_jobs(rng, thorough):
     for (H, W) in small + mid:
         for mask in all_masks(H, W):
             for fam in FAMILIES:
-                # quick: 3x4 / 4x3 fully in the two main encodings, a seeded 1/8 in the others
-                if (H, W) in mid and not thorough and rng.random() >= (1 if fam == "int_0" else 1 / 2 if fam in main else 1 / 8):
+                # quick: a seeded 1/2 of 3x4 / 4x3 in the two main encodings, 1/8 in the others
+                if (H, W) in mid and not thorough and rng.random() >= (1 / 2 if fam in main else 1 / 8):
                     continue
                 yield mark_proper(fam_job(fam, mask, H, W), mask)
             for fam in FAMILIES2:
